@@ -39,12 +39,11 @@ def den(T):
     emax = 2 ** (n - 1) - 1
     mv = T.max_val_po2
     # qtools' own rule (get_exp) for the bits left of the binary point: max(0, min(ceil(log2 max_val), emax)).
-    # The values the type can HOLD are additionally bounded by max_val itself.
+    # For a max_val that is not a power of two the type therefore reaches 2^ceil(log2 max_val) > max_val - which is what
+    # the quantizers emit (they round the exponent of the clipped value: max_value=3 gives 4).
     if mv != -1:
       emax = 0 if mv <= 0 else min(int(math.ceil(math.log2(mv))), emax)
       emax = max(0, emax)
-      if mv > 0:
-        emax = min(emax, int(math.floor(math.log2(mv))))
     if emax < emin:
       return Den("empty")
     return Den("po2", signed=signed, emin=int(emin), emax=int(emax))
